@@ -100,6 +100,12 @@ func rayIntersectsSegment(p, a, b Point) bool {
 		if p.X < a.X {
 			return true
 		}
+		if p.X == a.X {
+			// p is straight above the lower end of a segment that leans to the
+			// right (p is not on the segment). The slope below would divide by
+			// p.X-a.X, which is -0 rather than +0 when p.X is -0 and a.X is 0.
+			return true
+		}
 	}
 	return (p.Y-a.Y)/(p.X-a.X) >= (b.Y-a.Y)/(b.X-a.X)
 }
